@@ -102,6 +102,11 @@ def run(res, tier, seed):
                "f:\n    addi a0, a0, 1\n    beqz a0, g\n    j g\ng:\n    addi a0, a0, 2\n    ret\n",
                "main:\n    li a0, 0\n    jal f\n    jal g\n    li a7, 10\n    ecall\nf:\n    addi a0, a0, 1\n    bltz a0, skip\n    j g\nskip:\n"
                "    addi a0, a0, 5\ng:\n    addi a0, a0, 2\n    ret\n"]
+    # one instruction that reads two saved registers which still hold what the caller left in them: both
+    # operands are reported, in column order, whatever order the operand set is walked in
+    for a, b in (("s1", "s2"), ("s11", "s3"), ("s0", "s10")):
+        shared.append(f"main:\n    li a0, 1\n    jal f\n    li a7, 10\n    ecall\nf:\n    add a0, {a}, {b}\n    beq {b}, {a}, fo\n    sub a0, {b}, {a}\n"
+                      f"fo:\n    ret\n")
     # one saved register overwritten on both arms of a branch (at the same and at different distances
     # from the single return), on three arms, and twice on one arm: every overwrite is found whatever
     # order the backward search meets them in
